@@ -6,7 +6,9 @@ CONSTANTS
   PRECANCEL = FALSE
   ANYCANCEL = FALSE
   ANYCLOSE = TRUE
+  RECHECK = FALSE
 INVARIANT AInv
+INVARIANT ToldIsHeld
 INVARIANT NoOrphan
 INVARIANT NoStuckManager
 INVARIANT CandOK
